@@ -184,7 +184,9 @@ CLAIMED = {
         "design_ref": 'DESIGN.md 5/C15',
         "note": 'trusted: Coq kernel, sqlite semantics (unique-key insert, transaction atomicity, BINARY text order), crash = exception at a statement boundary through'
                 ' a proxy on db.db, epoch taken from the parsed Tle, insertion_time not modelled; platform_names may permanently lack a row after a crash (proved; not '
-                'required by the property)',
+                'required by the property); additionally translator/gen_db.py (fail-closed AST extraction) REGENERATES on every run the SQL texts class SQLiteTLE '
+                "issues, the epoch-key expression and the inserted row, and C15_source_sql states that they are the statements the model's sqlite oracle was written "
+                'for',
         "technique": 'refinement proof in Coq to a history-level abstract spec + Coq-evaluated (vm_compute) history correspondence with crash injection',
     },
     "C16": {
